@@ -178,6 +178,27 @@ func cmdCheck(args []string) {
 	for _, n := range lock[*prop] {
 		locked[n] = true
 	}
+	// in-repository callees without contract that could not be inlined, per function
+	// under contract; the pinned set is kept in the lock file
+	pinnedOpaque := map[string]bool{}
+	for _, pr := range lock[*prop+"#opaque"] {
+		pinnedOpaque[pr] = true
+	}
+	newOpaque := map[string][]string{}
+	var allOpaque []string
+	for _, r := range results {
+		if r.VC == nil {
+			continue
+		}
+		for g := range r.VC.opaque {
+			pair := r.Key + " -> " + g
+			allOpaque = append(allOpaque, pair)
+			if !pinnedOpaque[pair] && len(lock[*prop]) > 0 {
+				newOpaque[r.Key] = append(newOpaque[r.Key], g)
+			}
+		}
+	}
+	sort.Strings(allOpaque)
 	known, _ := loadKnownFindings(filepath.Join(vdir, "known_findings.txt"))
 	isKnown := func(name string) *knownFinding {
 		for i := range known {
@@ -209,7 +230,7 @@ func cmdCheck(args []string) {
 					hadLocked = true
 				}
 			}
-			if hadLocked && strings.Contains(r.Err, "unknown identifier") {
+			if hadLocked && (strings.Contains(r.Err, "unknown identifier") || strings.Contains(r.Err, "loop is not a range") || strings.Contains(r.Err, "no counted call seen")) {
 				// the contract names a local variable that the function no longer has
 				// (renamed or removed): the contract needs maintenance; nothing is
 				// decided about this function, which is not evidence of a violation
@@ -311,6 +332,13 @@ func cmdCheck(args []string) {
 				problems = append(problems, "UNCLAIMED-OBLIGATION not discharged: "+o.Name+" ("+st+")")
 				continue
 			}
+			if gs := newOpaque[r.Key]; len(gs) > 0 && !replayed {
+				// modular verification cannot see through a function that has no
+				// contract: code was moved into a new helper (or a helper grew a loop)
+				sort.Strings(gs)
+				problems = append(problems, fmt.Sprintf("UNDECIDED %s (%s): %s now calls %s, which has no contract and cannot be expanded; the obligation is undecided until that function gets a contract", o.Name, st, r.Key, strings.Join(gs, ", ")))
+				continue
+			}
 			suffix := ""
 			if !replayed {
 				suffix = " no-failing-input-found"
@@ -361,10 +389,18 @@ func cmdCheck(args []string) {
 		byFunc[k] = append(byFunc[k], m)
 	}
 	for _, k := range fnOrder {
+		if gs := newOpaque[k]; len(gs) > 0 {
+			sort.Strings(gs)
+			problems = append(problems, fmt.Sprintf("UNDECIDED %s: obligations %v are not generated any more and %s now calls %s, which has no contract and cannot be expanded (code moved into a helper)", k, byFunc[k], k, strings.Join(gs, ", ")))
+			continue
+		}
 		file := filepath.Join(rdir, sanitizeFile(k)+".missing.txt")
 		why := "the function still exists but these obligations are not generated from the current source (the call site, loop or return they were attached to is gone)"
 		if missingFuncs[k] {
-			why = "the function under contract does not exist in the current source"
+			// renamed, inlined into its callers or deleted: nothing can be said about
+			// it; what its callers must still do is carried by their own contracts
+			problems = append(problems, fmt.Sprintf("UNDECIDED %s: the function under contract does not exist in the current source (renamed, inlined or deleted); its obligations %v were not generated", k, byFunc[k]))
+			continue
 		}
 		os.WriteFile(file, []byte(fmt.Sprintf("property: %s\nfunction: %s\n%s\nobligations discharged on the pinned tree and missing now:\n  %s\n", *prop, k, why, strings.Join(byFunc[k], "\n  "))), 0o644)
 		outLines = append(outLines, fmt.Sprintf("VIOLATION property=%s replay=%s obligation=%s (and %d more) status=missing no-failing-input-found", *prop, file, byFunc[k][0], len(byFunc[k])-1))
@@ -382,6 +418,7 @@ func cmdCheck(args []string) {
 		}
 		sort.Strings(names)
 		lock[*prop] = names
+		lock[*prop+"#opaque"] = allOpaque
 		d, _ := json.MarshalIndent(lock, "", " ")
 		os.WriteFile(lockFile, append(d, '\n'), 0o644)
 	}
@@ -441,6 +478,7 @@ func cmdCheck(args []string) {
 		"solver_ms_total":          solverMs,
 		"load_s":                   loadS,
 		"missing_obligations":      missing,
+		"opaque_callees":           allOpaque,
 		"machinery_problems":       problems,
 		"known_findings_printed":   countPrefix(outLines, "KNOWN-FINDING"),
 		"vacuity":                  fmt.Sprintf("%d cover queries unsat (must be 0); every function has an entry cover and a cover per return site", vacuous),
@@ -528,6 +566,7 @@ var (
 	rePreserve = regexp.MustCompile(`/(preserve(#\d+)?|init)$`)
 	reSafeOrd  = regexp.MustCompile(`(safe|guarded)\[([A-Za-z0-9_-]+)#\d+\]`)
 	reDupOrd   = regexp.MustCompile(`~\d+$`)
+	reReqOrd   = regexp.MustCompile(`/call\[([^\]#]+)#\d+\]/requires\[`)
 )
 
 // clauseBase maps an obligation name to the contract clause it instantiates:
@@ -539,6 +578,7 @@ func clauseBase(n string) string {
 	n = reRetSite.ReplaceAllString(n, "")
 	n = rePreserve.ReplaceAllString(n, "")
 	n = reSafeOrd.ReplaceAllString(n, "$1[$2]")
+	n = reReqOrd.ReplaceAllString(n, "/call[$1]/requires[") // the ordinal of a callee precondition follows the code
 	return n
 }
 
